@@ -87,6 +87,8 @@ def translators():
   out['Src_psd'] = lambda: translate_psd.translate(REPO)
   import translate_nca
   out['Src_nca'] = lambda: translate_nca.translate(REPO)
+  import translate_calib
+  out['Src_calib'] = lambda: translate_calib.translate(REPO)
   import translate_lfda
   out['Src_lfda'] = lambda: translate_lfda.translate(REPO)
   import translate_mlkr
